@@ -167,11 +167,15 @@ def handle (j : Json) : Json :=
   let exro := getBool j "exro"
   let ds := !(getBool j "skipDefaults")
   let out := validateRequestBodyD registry rb ct b exro ds
-  let spec := acceptB registry rb ct b exro
+  let neutral := caseNeutral registry rb ct b exro ds
+  let twoPhase := ds && !neutral && caseCompFree registry rb ct b
+  -- the request-side reading where defaults are neutral; the two-phase reading (completed value) for
+  -- composition-free schemas whose defaults decide; elsewhere no specification applies
+  let spec := if twoPhase then acceptDB registry rb ct b exro ds else acceptB registry rb ct b exro
   let excl :=
     (if exclFormUnparsable registry rb ct b then ["FormFieldUnparsable"] else []) ++
     (if exclNoBodyEncoder registry rb ct b exro ds then ["NoBodyEncoder"] else [])
-  let applies := caseNeutral registry rb ct b exro ds
+  let applies := neutral || twoPhase
   let reached := !(b.text = []) && !rb.content.isEmpty
   let sel := contentGet rb.content ct
   let decoding := reached && (match sel with | some mt => mt.schema.isSome | none => false)
@@ -209,7 +213,8 @@ def handle (j : Json) : Json :=
        (if hasDflt s then (dfltKinds s).eraseDups else []) ++
        (if hasDflt s && ds && roGuard s v && !exro then ["dflt.readOnly.guarded"] else []) ++
        (if ds && firesD exro s v then
-          ["dflt.fires", if defaultsNeutral exro s v then "dflt.fires.neutral" else "dflt.fires.specNA"] ++
+          ["dflt.fires", if defaultsNeutral exro s v then "dflt.fires.neutral"
+                         else if compFree s then "dflt.fires.twoPhaseSpec" else "dflt.fires.specNA"] ++
           (if !(compFree s) then ["dflt.fires.composition"] else []) ++
           (if compFree s && !dfltsHarmless exro s then ["dflt.fires.requiredOrNonconforming"] else []) ++
           (if (visD true exro s v).isSome != visit exro s v then ["dflt.changesVerdict"] else [])
